@@ -278,6 +278,12 @@ def run(facts, rep, tier, ctx):
     for w in (ws, wa):
         if w.present():
             _c07.delegation(facts, rep if not w.asyncw else __import__("analysis.props.c10", fromlist=["_Prefixed"])._Prefixed(rep, "A"), w, "R08.10", D8)
+    # R08.12 is_file / is_dir are answered from exists() and metadata() alone: they are pure observers, and an observer that opens the
+    # entry instead reaches the in-memory backend's access-time stamp of open_file — on an overlay that re-times a lower layer's entry
+    from . import c05 as _c05k
+    for w in (ws, wa):
+        if w.present():
+            _c05k.is_kind_rules(facts, _c05k._P5(rep if not w.asyncw else __import__("analysis.props.c10", fromlist=["_Prefixed"])._Prefixed(rep, "A"), "R08.12"), w, D8)
     # R08.9 "every mutation lands in the upper layer" also in the literal sense: the path a mutation is applied to is built
     # relative to the write layer (an absolute join restarts at the root of the filesystem the layer lives in — outside the
     # layer, possibly inside a lower one), and no path is built on a layer found by the resolver
